@@ -521,6 +521,7 @@ func (ev *ttEval) stmt(st *ttState, fn *FuncNode, s ast.Stmt, depth int, onRetur
 				s1 := s0
 				if c == ttU {
 					s1 = s0.clone()
+					ev.assume(s1, fn, v.Cond, true)
 				}
 				out = append(out, ev.block(s1, fn, v.Body.List, depth, onReturn)...)
 			}
@@ -528,6 +529,7 @@ func (ev *ttEval) stmt(st *ttState, fn *FuncNode, s ast.Stmt, depth int, onRetur
 				s2 := s0
 				if c == ttU {
 					s2 = s0.clone()
+					ev.assume(s2, fn, v.Cond, false)
 				}
 				if v.Else != nil {
 					out = append(out, ev.stmt(s2, fn, v.Else, depth, onReturn)...)
@@ -690,4 +692,55 @@ func ttErrOutcome(ret *ast.ReturnStmt, results []ttVal) string {
 		}
 	}
 	return "ok"
+}
+
+// assume refines the tracked variables with what an unknown condition says on the branch
+// taken: "err != nil" makes err non-nil on its true branch, a boolean local takes the
+// branch's value, conjunctions and disjunctions pass the assumption on where it is
+// certain.
+func (ev *ttEval) assume(st *ttState, fn *FuncNode, cond ast.Expr, val bool) {
+	cond = ast.Unparen(cond)
+	set := func(e ast.Expr, v ttVal) {
+		if o := objOf(fn, e); o != nil {
+			if cur, ok := st.vars[o]; !ok || cur == ttU {
+				if isBoolType(o.Type()) || isErrorType(o.Type()) {
+					st.vars[o] = v
+				}
+			}
+		}
+	}
+	b2v := func(b bool) ttVal {
+		if b {
+			return ttT
+		}
+		return ttF
+	}
+	switch x := cond.(type) {
+	case *ast.Ident:
+		set(x, b2v(val))
+	case *ast.UnaryExpr:
+		if x.Op == token.NOT {
+			ev.assume(st, fn, x.X, !val)
+		}
+	case *ast.BinaryExpr:
+		switch x.Op {
+		case token.LAND:
+			if val {
+				ev.assume(st, fn, x.X, true)
+				ev.assume(st, fn, x.Y, true)
+			}
+		case token.LOR:
+			if !val {
+				ev.assume(st, fn, x.X, false)
+				ev.assume(st, fn, x.Y, false)
+			}
+		case token.EQL, token.NEQ:
+			nonNil := val == (x.Op == token.NEQ)
+			if isNilIdent(fn, x.Y) {
+				set(x.X, b2v(nonNil))
+			} else if isNilIdent(fn, x.X) {
+				set(x.Y, b2v(nonNil))
+			}
+		}
+	}
 }
